@@ -7,6 +7,7 @@ import (
 	"crypto/rand"
 	"io"
 	"runtime"
+	"sync"
 
 	"github.com/go-errors/errors"
 	"github.com/privacybydesign/gabi/big"
@@ -27,10 +28,16 @@ func GenerateConcurrent(bitsize int, stop chan struct{}) (<-chan *big.Int, <-cha
 	// this, so that we always stop all goroutines independent of whether the caller close()s stop
 	// or sends a struct{}{} to it.
 	stopped := make(chan struct{})
+	// stopped may have to be closed by the goroutine below as well as by any number of generating
+	// goroutines that encounter an error at about the same time: close it at most once.
+	var stopOnce sync.Once
+	stopAll := func() {
+		stopOnce.Do(func() { close(stopped) })
+	}
 	go func() {
 		select {
 		case <-stop:
-			close(stopped)
+			stopAll()
 		case <-stopped: // stopped can also be closed by a goroutine that encountered an error
 		}
 	}()
@@ -43,7 +50,7 @@ func GenerateConcurrent(bitsize int, stop chan struct{}) (<-chan *big.Int, <-cha
 				x, err := Generate(bitsize, stopped)
 				if err != nil {
 					errs <- err
-					close(stopped)
+					stopAll()
 					return
 				}
 
@@ -52,7 +59,13 @@ func GenerateConcurrent(bitsize int, stop chan struct{}) (<-chan *big.Int, <-cha
 				case <-stopped:
 					return
 				default:
-					ints <- x
+				}
+				// The receiver stops reading once it has what it needs, so sending must not block
+				// forever when the channel is full: give up as soon as we are told to stop.
+				select {
+				case <-stopped:
+					return
+				case ints <- x:
 					continue
 				}
 			}
